@@ -1497,6 +1497,114 @@ def process(ctx, cases):
     return stats
 
 
+# ---- round 6: the data cache of the two beam models as a state machine (Model/BeamCache.lean) ------------------------------
+from harness.translators.beam_cache import CACHE_CALLS  # noqa: E402
+
+CACHE_WITNESSES = [('cx', ['f:pec', 'e']), ('cx', ['e', 'c:line', 'f:shape', 'e']), ('cx', ['f:wavelength', 'e', 'e']),
+                   ('cx', ['f:pop', 'e']), ('bes', ['f:pec2', 'e']), ('bes', ['f:wavelength', 'e']), ('bes', ['f:pec1', 'e', 'c:composition', 'e'])]
+
+
+def cache_histories(ctx, n):
+    rng = ctx.rng
+    out = [dict(kind=k_, steps=list(st)) for k_, st in CACHE_WITNESSES]
+    for _ in range(n):
+        kind = rng.choice(['cx', 'bes'])
+        wheres = [w for w, _ in CACHE_CALLS[kind]]
+        changes = ['c:line', 'c:composition', 'c:beam.energy'] if kind == 'cx' else ['c:composition', 'c:beam.energy']
+        steps = []
+        for _ in range(rng.randrange(2, 7)):
+            u = rng.random()
+            steps.append('e' if u < 0.4 else 'f:' + rng.choice(wheres) if u < 0.7 else rng.choice(changes))
+        steps.append('e')
+        out.append(dict(kind=kind, steps=steps))
+    for i, h in enumerate(out):
+        h['id'] = i
+    return out
+
+
+def cache_run_impl(histories):
+    """{id: [(step, obs, detail)]}; the worker is restarted after the history that killed it"""
+    import os
+    import subprocess
+    import sys
+    from harness.vlib.util import VERIF
+    res = {h['id']: [] for h in histories}
+    todo = list(histories)
+    while todo:
+        p = subprocess.run([sys.executable, '-m', 'harness.props.c05_cache_worker'], input=json.dumps(todo), cwd=VERIF,
+                           stdout=subprocess.PIPE, stderr=subprocess.PIPE, text=True, timeout=600)
+        started = None
+        for ln in p.stdout.splitlines():
+            try:
+                r = json.loads(ln)
+            except ValueError:
+                continue
+            if r['obs'] == 'started':
+                started = (r['id'], r['step'])
+            else:
+                res[r['id']].append((r['step'], r['obs'], r.get('detail', '')))
+                started = None
+        if p.returncode == 0:
+            break
+        if started is None:
+            raise RuntimeError('C05 cache worker failed outside an emission: %s' % p.stderr[-500:])
+        res[started[0]].append((started[1], 'broken', 'the interpreter died inside emission() (exit status %d)' % p.returncode))
+        todo = [h for h in todo if h['id'] > started[0]]
+    return res
+
+
+def cache_stream(ctx, designs):
+    names = ctx.driver(['design cxHead', 'design besHead', 'design cxFixed', 'design besFixed'])
+    # the protocols transcribed in Model/BeamCache.lean (theorems are about those) are the ones the source has today
+    for k_, head, fixed in (('cx', names[0], names[2]), ('bes', names[1], names[3])):
+        ctx.traces += 1
+        mine = ' '.join(designs[k_]['tokens'])
+        if mine != fixed:
+            # (the theorems cxSource_eq_fixed / besSource_eq_fixed fail to build in that case as well)
+            ctx.disagreements += 1
+            ctx.broke('correspondence', 'C05 stream cache-design (%s): the source does not write the guard attribute last%s'
+                      % (k_, ' - it is the order of cxHead / besHead, for which *_failed_populate_broken are theorems' if mine == head else ''),
+                      dict(source=mine, model_old_order=head, model_guard_last=fixed))
+        ctx.count('cache-design:%s:%s' % (k_, 'as-transcribed-head' if mine == head else 'guard-written-last' if mine == fixed else 'unknown'))
+    hist = cache_histories(ctx, ctx.n(6, 60))
+    res = cache_run_impl(hist)
+    lines = []
+    for h in hist:
+        d = designs[h['kind']]
+        ops = []
+        for st in h['steps']:
+            ops.append('e' if st == 'e' else 'f%d' % d['fail_at'][st[2:]] if st.startswith('f:') else None)
+        cfg = 0
+        for i, st in enumerate(h['steps']):
+            if st.startswith('c:'):
+                cfg += 1
+                ops[i] = 'c%d' % cfg
+        lines.append('cache ' + ' '.join(d['tokens']) + ' 0 ' + ' '.join(ops))
+    outs = ctx.driver(lines)
+    for h, out in zip(hist, outs):
+        who = 'BeamCXLine.emission' if h['kind'] == 'cx' else 'BeamEmissionLine.emission'
+        got = res[h['id']]
+        model = out.split()
+        ctx.traces += 1
+        ctx.count('cache-history:%s' % h['kind'])
+        # K: the state machine predicts every observation up to (and including) the one that killed the process
+        if [g[1] for g in got] != model[:len(got)] or (len(got) < len(model) and got and got[-1][1] != 'broken') or not got:
+            ctx.disagreements += 1
+            ctx.broke('correspondence', 'C05 stream cache-history (%s)' % h['kind'],
+                      dict(model=out, implementation=[g[1] for g in got], history=h))
+        # S: every emission is the one of a model constructed now, or raises because the provider failed in that very call
+        for (step, obs, detail), st in zip(got, [s_ for s_ in h['steps'] if not s_.startswith('c:')]):
+            ctx.count('cache-history:observation:%s' % obs)
+            bad = obs in ('broken', 'stale') or (obs == 'raised' and st == 'e')
+            if bad:
+                ctx.fail('C05:%s:after-failed-populate' % who,
+                         'history %s on one live model: emission number %d is %s (%s); documented: the emission of the current '
+                         'configuration (a model constructed now gives it), or the provider\'s exception in the call where it '
+                         'failed' % (' '.join(h['steps']), step, obs, detail[:300]), dict(cache_history=h))
+                break
+    return designs
+
+
 def constants_monitor(ctx):
     """the constants the formulas use are the physical ones (scipy CODATA), and the driver's Float agrees with CPython"""
     from scipy import constants as sc
@@ -1527,8 +1635,17 @@ def run(ctx, extra_cases=()):
                         'compositions of ions with charge >= 1 plus neutrals whose population / beam-emission coefficients are null rates (Guard in Props/C05.lean); neutrals with non-null rates are exercised in K only (both sides give nan)',
                         '"total ion density" = Plasma.ion_density as documented: the sum over every species of the composition, neutrals included (open question in notes/C05.md)',
                         'float rounding is not modelled; K and S compare to 1e-9 relative']
+    from harness.translators import beam_cache
+    tr = beam_cache.translate()
+    ctx.extra['translator_beam_cache'] = dict(regenerated=tr['changed'], designs={k_: ' '.join(v['tokens']) for k_, v in tr['designs'].items()},
+                                              fail_at={k_: v['fail_at'] for k_, v in tr['designs'].items()})
+    ctx.trusted += ['harness/translators/beam_cache.py (syntactic; the protocol it reads is run by the driver and compared with the running classes in the cache-history stream)']
+    ctx.lean_check(['Cherab.Props.C05Cache'], 'Cherab/Audit/C05Cache.lean')
     ctx.lean_check(['Cherab.Props.C05'], 'Cherab/Audit/C05.lean')
+    ctx.checker_cmd = ('cd /verif/lean && lake build Cherab.Props.C05 Cherab.Props.C05Cache && lake env lean Cherab/Audit/C05.lean '
+                       '&& lake env lean Cherab/Audit/C05Cache.lean')
     constants_monitor(ctx)
+    cache_stream(ctx, tr['designs'])
     total = ctx.n(4000, 120000)
     stats = process(ctx, list(extra_cases) + corpus_cases())
     done = 0
